@@ -9,15 +9,32 @@ import z3
 PMAX = 3  # integer exponents are encoded for 0..PMAX (stated bound)
 
 
+class NeedIntMode(Exception):
+    """raised in bit-vector mode when an operation needs mathematical integers / reals"""
+
+
 class Sem:
-    def __init__(self, real_mode='real', lang='fortran'):
+    """int_mode 'int': INTEGER -> z3 Int (magnitudes of all intermediate integer values are tracked in ``max_mag``).
+    int_mode 'bv': INTEGER -> signed BitVec(width); sound only if width > log2(max_mag)+1 as computed by a previous
+    'int' pass over the same expression (vlib.fsmt.solve.prove does exactly that)."""
+
+    def __init__(self, real_mode='real', lang='fortran', int_mode='int', width=None):
         assert real_mode in ('real', 'uf')
         self.real_mode = real_mode
         self.lang = lang            # 'fortran' | 'c' | 'python'
+        self.int_mode = int_mode
+        self.width = width
+        self.isort = z3.IntSort() if int_mode == 'int' else z3.BitVecSort(width)
         self.defined = []           # list of Bool terms that must hold for the evaluation to be defined / in bound
+        self.ranges = []            # range constraints of declared variables / uninterpreted applications
+        self.int_vars = []
+        self._mag = {}              # term id -> magnitude bound (python int) ; None = unbounded
+        self.max_mag = 0
+        self.unbounded = False
+        self.used_real = False
         if real_mode == 'uf':
             self.R = z3.DeclareSort('R')
-            R, I, B = self.R, z3.IntSort(), z3.BoolSort()
+            R, I, B = self.R, self.isort, z3.BoolSort()
             self.f = {
                 'add': z3.Function('fadd', R, R, R), 'mul': z3.Function('fmul', R, R, R),
                 'div': z3.Function('fdiv', R, R, R), 'neg': z3.Function('fneg', R, R),
@@ -36,10 +53,47 @@ class Sem:
             self.f = {'powr': z3.Function('rpowr', R, R, R), 'sqrt': z3.Function('rsqrt', R, R),
                       'exp': z3.Function('rexp', R, R)}
 
+    # ---- magnitudes (interval arithmetic on python ints, to size bit-vectors soundly)
+    def mag(self, t):
+        return self._mag.get(t.get_id(), None)
+
+    def setmag(self, t, m):
+        if m is None:
+            self.unbounded = True
+        else:
+            self._mag[t.get_id()] = m
+            self.max_mag = max(self.max_mag, m)
+        return t
+
+    def _m(self, f, *ts):
+        ms = [self.mag(t) for t in ts]
+        if any(m is None for m in ms):
+            return None
+        return f(*ms)
+
+    def int_var(self, name, bound):
+        v = z3.Const(name, self.isort)
+        self.int_vars.append(v)
+        self.ranges.append(z3.And(v >= -bound, v <= bound))
+        return self.setmag(v, bound)
+
+    def int_app(self, func_name, args, bound):
+        """application of an uninterpreted INTEGER function (e.g. an array read) with |result| <= bound"""
+        f = z3.Function(func_name, *([self.isort] * len(args)), self.isort)
+        t = f(*args)
+        self.ranges.append(z3.And(t >= -bound, t <= bound))
+        return self.setmag(t, bound)
+
+    def ite(self, c, a, b):
+        a, b, k = self.unify(a, b)
+        t = z3.If(c, a, b)
+        if k == 'i':
+            self.setmag(t, self._m(max, a, b))
+        return t
+
     # ---- kinds
-    @staticmethod
-    def is_int(t):
-        return z3.is_expr(t) and t.sort() == z3.IntSort()
+    def is_int(self, t):
+        return z3.is_expr(t) and t.sort() == self.isort
 
     @staticmethod
     def is_bool(t):
@@ -48,14 +102,20 @@ class Sem:
     def is_real(self, t):
         return z3.is_expr(t) and t.sort() == self.R
 
-    def real_const(self, name):
-        return z3.Const(name, self.R)
+    def real_const(self, name, bound=None):
+        self.used_real = True
+        v = z3.Const(name, self.R)
+        if bound is not None and self.real_mode == 'real':
+            self.ranges.append(z3.And(v >= -bound, v <= bound))
+        return v
 
     def int_lit(self, v):
-        return z3.IntVal(int(v))
+        t = z3.IntVal(int(v)) if self.int_mode == 'int' else z3.BitVecVal(int(v), self.width)
+        return self.setmag(t, abs(int(v)))
 
     def real_lit(self, text):
         """text: Fortran/C real literal such as 1.5, 2., 1.0e-3, 3.d0, 1._jprb (kind suffix already stripped)"""
+        self.used_real = True
         t = text.lower().replace('d', 'e')
         if self.real_mode == 'uf':
             # identical decimal value -> identical constant; '1.0' and '1.00' are the same number in any arithmetic
@@ -69,8 +129,11 @@ class Sem:
         if self.is_real(t):
             return t
         assert self.is_int(t), t
+        self.used_real = True
         if self.real_mode == 'uf':
             return self.f['i2r'](t)
+        if self.int_mode == 'bv':
+            raise NeedIntMode('int->real conversion')
         return z3.ToReal(t)
 
     def to_int_trunc(self, t):
@@ -78,9 +141,11 @@ class Sem:
         if self.is_int(t):
             return t
         if self.real_mode == 'uf':
-            return self.f['r2i'](t)
+            return self.setmag(self.f['r2i'](t), None)
+        if self.int_mode == 'bv':
+            raise NeedIntMode('real->int conversion')
         fl = z3.ToInt(t)  # floor
-        return z3.If(z3.Or(t >= 0, z3.ToReal(fl) == t), fl, fl + 1)
+        return self.setmag(z3.If(z3.Or(t >= 0, z3.ToReal(fl) == t), fl, fl + 1), None)
 
     def unify(self, a, b):
         if self.is_int(a) and self.is_int(b):
@@ -98,14 +163,20 @@ class Sem:
             raise TypeError('logical +')
         if k == 'r' and self.real_mode == 'uf':
             return self.f['add'](a, b)
-        return a + b
+        t = a + b
+        if k == 'i':
+            self.setmag(t, self._m(lambda x, y: x + y, a, b))
+        return t
 
     def neg(self, a):
         if self.is_bool(a):
             raise TypeError('logical neg')
         if self.is_real(a) and self.real_mode == 'uf':
             return self.f['neg'](a)
-        return -a
+        t = -a
+        if self.is_int(a):
+            self.setmag(t, self.mag(a))
+        return t
 
     def sub(self, a, b):
         return self.add(a, self.neg(b))
@@ -116,18 +187,36 @@ class Sem:
             raise TypeError('logical *')
         if k == 'r' and self.real_mode == 'uf':
             return self.f['mul'](a, b)
-        return a * b
+        t = a * b
+        if k == 'i':
+            self.setmag(t, self._m(lambda x, y: x * y, a, b))
+        return t
 
-    @staticmethod
-    def tdiv(a, b):
-        """truncating integer division built from z3's Euclidean div/mod"""
-        q, r = a / b, a % b
-        return z3.If(z3.Or(a >= 0, r == 0), q, z3.If(b > 0, q + 1, q - 1))
+    def tdiv(self, a, b):
+        """truncating integer division (Int: built from z3's Euclidean div/mod; BV: bvsdiv)"""
+        if self.int_mode == 'bv':
+            t = a / b
+        else:
+            q, r = a / b, a % b
+            t = z3.If(z3.Or(a >= 0, r == 0), q, z3.If(b > 0, q + 1, q - 1))
+        return self.setmag(t, self.mag(a))
 
-    @staticmethod
-    def fdiv_floor(a, b):
-        q, r = a / b, a % b   # euclid: 0 <= r < |b|
-        return z3.If(z3.Or(b > 0, r == 0), q, q - 1)  # floor(a/b): for b<0 and r!=0 euclid q = ceil -> q-1
+    def trem(self, a, b):
+        """remainder with the sign of the dividend (Fortran MOD, C %)"""
+        if self.int_mode == 'bv':
+            t = z3.SRem(a, b)
+        else:
+            t = a - self.tdiv(a, b) * b
+        return self.setmag(t, self._m(min, a, b))
+
+    def fdiv_floor(self, a, b):
+        if self.int_mode == 'bv':
+            q = a / b
+            t = z3.If(z3.And(z3.SRem(a, b) != 0, (a < 0) != (b < 0)), q - 1, q)
+        else:
+            q, r = a / b, a % b   # euclid: 0 <= r < |b|
+            t = z3.If(z3.Or(b > 0, r == 0), q, q - 1)  # floor(a/b): for b<0 and r!=0 euclid q = ceil -> q-1
+        return self.setmag(t, self._m(lambda x, y: x + 1, a, b))
 
     def div(self, a, b):
         a, b, k = self.unify(a, b)
@@ -137,8 +226,8 @@ class Sem:
             self.defined.append(b != 0)
             if self.lang == 'python':
                 # Python '/' on ints is true division
-                return z3.ToReal(a) / z3.ToReal(b) if self.real_mode == 'real' else \
-                    self.f['div'](self.f['i2r'](a), self.f['i2r'](b))
+                ra, rb = self.to_real(a), self.to_real(b)
+                return ra / rb if self.real_mode == 'real' else self.f['div'](ra, rb)
             return self.tdiv(a, b)
         if self.real_mode == 'uf':
             return self.f['div'](a, b)
@@ -157,8 +246,8 @@ class Sem:
             self.defined.append(z3.And(b >= 0, b <= PMAX))
             if self.is_real(a) and self.real_mode == 'uf':
                 return self.f['powi'](a, b)
-            one = z3.IntVal(1) if self.is_int(a) else z3.RealVal(1)
-            res, acc = one, one
+            one = self.int_lit(1) if self.is_int(a) else z3.RealVal(1)
+            acc = one
             chain = []
             for e in range(0, PMAX + 1):
                 chain.append((e, acc))
@@ -166,9 +255,14 @@ class Sem:
             res = chain[-1][1]
             for e, v in reversed(chain[:-1]):
                 res = z3.If(b == e, v, res)
-            return z3.simplify(res) if z3.is_int_value(z3.simplify(b)) else res
+            sb = z3.simplify(b)
+            if z3.is_int_value(sb) or z3.is_bv_value(sb):
+                res = z3.simplify(res)
+            if self.is_int(a):
+                self.setmag(res, self._m(lambda x: max(1, x) ** PMAX, a))
+            return res
         a = self.to_real(a)
-        return self.f['powr'](a, b)
+        return self.f['powr'](a, self.to_real(b))
 
     # ---- relations
     def cmp(self, op, a, b):
@@ -213,18 +307,18 @@ class Sem:
                 if k == 'r' and uf:
                     r = self.f[base](r, x)
                 else:
-                    r = z3.If(r >= x, r, x) if base == 'max' else z3.If(r <= x, r, x)
+                    r = self.ite(r >= x, r, x) if base == 'max' else self.ite(r <= x, r, x)
             return r
         if name in ('abs', 'iabs', 'dabs'):
             a = args[0]
             if self.is_real(a) and uf:
                 return self.f['abs'](a)
-            return z3.If(a >= 0, a, -a)
+            return self.ite(a >= 0, a, self.neg(a))
         if name == 'mod':
             a, b, k = self.unify(args[0], args[1])
             if k == 'i':
                 self.defined.append(b != 0)
-                return a - self.tdiv(a, b) * b
+                return self.trem(a, b)
             if uf:
                 return self.f['mod'](a, b)
             self.defined.append(b != 0)
@@ -236,17 +330,18 @@ class Sem:
             a, b, k = self.unify(args[0], args[1])
             if k == 'i':
                 self.defined.append(b != 0)
-                return a - self.fdiv_floor(a, b) * b
+                if self.int_mode == 'bv':
+                    return self.setmag(a % b, self.mag(b))
+                return self.setmag(a - self.fdiv_floor(a, b) * b, self.mag(b))
             raise NotImplementedError('real modulo')
         if name in ('sign', 'isign', 'dsign'):
             a, b, k = self.unify(args[0], args[1])
             if k == 'r' and uf:
                 return self.f['sign'](a, b)
-            absa = z3.If(a >= 0, a, -a)
-            return z3.If(b >= 0, absa, -absa)
+            absa = self.ite(a >= 0, a, self.neg(a))
+            return self.ite(b >= 0, absa, self.neg(absa))
         if name == 'merge':
-            t, f_, _ = self.unify(args[0], args[1])
-            return z3.If(args[2], t, f_)
+            return self.ite(args[2], args[0], args[1])
         if name in ('int', 'ifix', 'idint'):
             return self.to_int_trunc(args[0])
         if name in ('real', 'float', 'dble', 'sngl'):
@@ -256,9 +351,11 @@ class Sem:
             if self.is_int(a):
                 return a
             if uf:
-                return self.f['nint'](a)
+                return self.setmag(self.f['nint'](a), None)
+            if self.int_mode == 'bv':
+                raise NeedIntMode('nint')
             half = z3.RealVal('1/2')
-            return z3.If(a >= 0, z3.ToInt(a + half), -z3.ToInt(-a + half))
+            return self.setmag(z3.If(a >= 0, z3.ToInt(a + half), -z3.ToInt(-a + half)), None)
         if name in ('sqrt', 'exp', 'dsqrt', 'dexp'):
             return self.f[name.lstrip('d') if name.startswith('d') else name](self.to_real(args[0]))
         raise NotImplementedError(f'intrinsic {name}')
@@ -267,7 +364,7 @@ class Sem:
         """value conversion on assignment to a variable of z3 sort ``sort``"""
         if val.sort() == sort:
             return val
-        if sort == z3.IntSort():
+        if sort == self.isort:
             return self.to_int_trunc(val)
         if sort == self.R:
             return self.to_real(val)
